@@ -68,6 +68,8 @@ def run_shard(spec, acc):
 
 
 def convert_exhaustive(spec, acc):
+    from pytestarch.eval_structure_generation.file_import.config import Config
+    from pytestarch.eval_structure_generation.file_import.file_filter import FileFilter
     from pytestarch.utils.partial_match_to_regex_converter import convert_partial_match_to_regex
 
     strings = [""] + ["".join(t) for n in range(1, spec["slen"] + 1) for t in itertools.product(ALPHA_S, repeat=n)]
@@ -85,8 +87,14 @@ def convert_exhaustive(spec, acc):
                 HUB.violation("C08", "convert-raises", f"convert_partial_match_to_regex({p!r}) raised {type(e).__name__}", {"pattern": p})
                 continue
             lead, trail, text = rglob.split(p)
+            ff = FileFilter(Config((rx.pattern,)))  # the composite the scan really uses: converter + file filter
             for s in strings:
                 got = rx.match(s) is not None
+                got_ff = ff.is_excluded(s)
+                if got_ff != got:
+                    HUB.case = {"kind": "convert", "pattern": p, "string": s}
+                    HUB.violation("C08", "file-filter-not-anchored-at-start", f"FileFilter with regex {rx.pattern!r} says {got_ff} for {s!r}, re.match says {got}", {"pattern": p, "string": s, "regex": rx.pattern})
+                    break
                 if lead and trail:
                     exp = text in s
                 elif lead:
@@ -104,6 +112,18 @@ def convert_exhaustive(spec, acc):
             acc.count("conversion_patterns")
             acc.hist("glob_shape_exhaustive", f"{'*' if lead else ''}text{'*' if trail else ''}")
             acc.nontrivial((1 << 70) | idx)
+    if spec["part"] == 0:
+        rxs = ["a", "b/", r"a\.b", "a|b", "(a|b)/", ".*a", ".*/a", "a$", ".*b$", "/a", "[ab]+", r".*\+", "a.*b", "(?:b)a"]
+        for r in rxs:
+            ff = FileFilter(Config((r,)))
+            cre = re.compile(r)
+            for s in strings:
+                acc.count("regex_filter_pairs")
+                if ff.is_excluded(s) != (cre.match(s) is not None):
+                    HUB.case = {"kind": "regex-filter", "regex": r, "string": s}
+                    HUB.violation("C08", "regex-exclusion-not-anchored-at-start-only", f"regex exclusion {r!r} vs {s!r}: filter says {ff.is_excluded(s)}, 're anchored at the start of the path' says {cre.match(s) is not None}", {"regex": r, "string": s})
+                    break
+            acc.evaluated(len(strings))
     acc.flags["exhaustive_conversion"] = True
     if spec["part"] == 0:
         acc.sample({"kind": "conversion", "pattern": "*a+", "string": "ba+", "expected": True})
@@ -131,7 +151,7 @@ def gen_patterns(rnd, spec, root):
         p = rnd.choice(paths)
         base = os.path.basename(p)
         stem = base[:-3] if base.endswith(".py") else base
-        shape = rnd.choice(["exact", "*name", "*/name", "prefix*", "*/name/*", "*name*", "*stem*", "nothing", "*/stem*", "*.py-less"])
+        shape = rnd.choice(["exact", "*name", "*/name", "prefix*", "*/name/*", "*name*", "*stem*", "nothing", "*/stem*", "*.py-less", "bare", "bare*"])
         if shape == "exact":
             pats.append(p)
         elif shape == "*name":
@@ -150,6 +170,10 @@ def gen_patterns(rnd, spec, root):
             pats.append("*/" + stem + "*")
         elif shape == "*.py-less":
             pats.append("*" + stem)
+        elif shape == "bare":
+            pats.append(base)  # a bare name equals no absolute path: must exclude nothing
+        elif shape == "bare*":
+            pats.append(stem + "*")  # no absolute path starts with a bare name
         else:
             pats.append("*no_such_thing_" + stem)
     return pats
@@ -213,7 +237,19 @@ def one_tree(tspec, acc, rnd, sample=False, forced=None):
                 use_regex = rnd.random() < 0.4
                 pats = gen_patterns(rnd, tspec, root)
                 if use_regex:
-                    pats = [glob_to_equiv_regex(p) if rnd.random() < 0.7 else ".*" + re.escape(os.path.basename(p.strip("*"))) + "$" for p in pats]
+                    def rxform(p):
+                        r = rnd.random()
+                        name = re.escape(os.path.basename(p.strip("*")) or "x")
+                        if r < 0.45:
+                            return glob_to_equiv_regex(p)
+                        if r < 0.6:
+                            return ".*" + name + "$"
+                        if r < 0.75:
+                            return ".*/" + name  # anchored at the start only: also excludes .../name_suffix and .../name/...
+                        if r < 0.85:
+                            return name  # cannot match at the start of an absolute path
+                        return ".*/" + name + "(/|$)"
+                    pats = [rxform(p) for p in pats]
             case = {"kind": "filtered", "spec": tspec, "mp": mp_rel, "use_regex": use_regex, "patterns": [p.replace(root, "<ROOT>") for p in pats]}
             HUB.case = case
             kw = {"exclusions": (), "regex_exclusions": tuple(pats)} if use_regex else {"exclusions": tuple(pats)}
